@@ -11,37 +11,6 @@ open Spec (A AMod)
 
 /-! ## uids of the abstract table -/
 
-theorem uids_nodup {a : A} {n : Nat} (h : a.mods.map (·.uid) = (List.range n).map (· + 1)) :
-    (a.mods.map (·.uid)).Nodup := by
-  rw [h]
-  unfold List.Nodup
-  rw [List.pairwise_map]
-  exact (List.nodup_range (n := n)).imp (fun h e => h (by omega))
-
-theorem uid_pos {a : A} {n : Nat} (h : a.mods.map (·.uid) = (List.range n).map (· + 1)) {l : AMod} (hl : l ∈ a.mods) :
-    l.uid ≠ 0 := by
-  have : l.uid ∈ a.mods.map (·.uid) := List.mem_map.mpr ⟨l, hl, rfl⟩
-  rw [h] at this
-  obtain ⟨k, _, hk⟩ := List.mem_map.mp this
-  omega
-
-theorem get_of_mem : ∀ (l : List AMod), (l.map (·.uid)).Nodup → ∀ x ∈ l, l.find? (·.uid == x.uid) = some x
-  | [], _, _, hx => by cases hx
-  | y :: rest, hn, x, hx => by
-    simp only [List.map_cons, List.nodup_cons] at hn
-    simp only [List.find?_cons]
-    cases hx with
-    | head => simp
-    | tail _ hx' =>
-      have : y.uid ≠ x.uid := fun e => hn.1 (e ▸ List.mem_map.mpr ⟨x, hx', rfl⟩)
-      have : (y.uid == x.uid) = false := by simpa using this
-      simp only [this]
-      exact get_of_mem rest hn.2 x hx'
-
-theorem live_of_mem {a : A} (hn : (a.mods.map (·.uid)).Nodup) {l : AMod} (hl : l ∈ a.mods) (hal : l.alive = true) :
-    a.live l.uid = some l :=
-  Spec.live_some.mpr ⟨get_of_mem a.mods hn l hl, hal⟩
-
 /-- no table entry beyond the uids handed out -/
 theorem sim_fresh {cfg : Cfg} {a : A} {s : State} (hs : Sim cfg a s) (u : Nat) (hu : s.nextUid < u) : s.find u = none := by
   cases hf : s.find u with
@@ -584,19 +553,20 @@ theorem seg_sub (hs : (rd.h.mtype == cfg.mtSubscribe || rd.h.mtype == cfg.mtResu
     · exact (removeSubCore_misc cfg _ rd.uid ty).2.2.2.2.2
     · exact (addSubCore_misc cfg _ rd.uid ty).2.2.2.2.2
   -- the optional DEBUG line
-  obtain ⟨sL, hsL, ls⟩ : ∃ sL, (if add = true then addSub cfg (rdState cfg s rd) rd.uid ty
-      else removeSub cfg (rdState cfg s rd) rd.uid ty) = sL ∧ LogStep cfg c sL := by
+  have hall : OrdAll cfg := OrdAll_of_perm hperm
+  obtain ⟨sL, hsL, ls, dtL⟩ : ∃ sL, (if add = true then addSub cfg (rdState cfg s rd) rd.uid ty
+      else removeSub cfg (rdState cfg s rd) rd.uid ty) = sL ∧ LogStep cfg c sL ∧ (Top cfg c → DT cfg none c sL) := by
     refine ⟨_, rfl, ?_⟩
     rw [← hC]
     cases add
     · simp only [Bool.false_eq_true, if_false]
       unfold removeSub; split
-      · exact logStep_log cfg 10 _
-      · exact logStep_refl cfg _
+      · exact ⟨logStep_log cfg 10 _, fun h => dt_log ok hall hfuel h 10⟩
+      · exact ⟨logStep_refl cfg _, fun h => DT.refl h _⟩
     · simp only [if_true]
       unfold addSub; split
-      · exact logStep_log cfg 10 _
-      · exact logStep_refl cfg _
+      · exact ⟨logStep_log cfg 10 _, fun h => dt_log ok hall hfuel h 10⟩
+      · exact ⟨logStep_refl cfg _, fun h => DT.refl h _⟩
   rw [hsL] at q
   have tL : Top cfg sL := by
     rw [← hsL]; cases add
@@ -627,7 +597,9 @@ theorem seg_sub (hs : (rd.h.mtype == cfg.mtSubscribe || rd.h.mtype == cfg.mtResu
   have hW : Spec.CoreExt others ((Spec.afterBuf cfg a rd).upd rd.uid (Spec.subUpd cfg ty add))
       (Spec.checkDepartures cfg (Spec.checkAcks cfg ((Spec.afterBuf cfg a rd).upd rd.uid (Spec.subUpd cfg ty add))
         rd.uid true evs) none evs) := by
-    rw [hck]; exact ext_others (Spec.checkDepartures_ext cfg _ _ evs)
+    rw [hck]
+    exact ext_others (dep_ext hs0 t0 n q evs (by rw [hout]; exact he) (Spec.CoreExt.refl [] _) none
+      ((dtL t0).bind (fun h' => dt_sendAck ok hall hfuel h' rd.uid)).dep (fun u hu => by cases hu))
   exact segGoal_of hseg rfl (seg_close hs0 t0 n q evs (by rw [hout]; exact he) hW)
 
 end sub
